@@ -23,6 +23,9 @@ type c05bOp struct {
 	Key       evid.B `json:"key"`
 	Marker    string `json:"marker"`
 	ValueLen  int    `json:"value_len,omitempty"`
+	// GiveUp: the caller's context ends right after the call was queued (before its batch is
+	// flushed): it may or may not go out, but it must not leave anything of itself in another frame
+	GiveUp bool `json:"give_up,omitempty"`
 }
 
 type c05bCase struct {
@@ -49,7 +52,10 @@ func c05bRun(c c05bCase) Outcome {
 }
 
 func c05bBuild(op c05bOp) (hrpc.Call, error) {
-	ctx := context.Background()
+	return c05bBuildCtx(context.Background(), op)
+}
+
+func c05bBuildCtx(ctx context.Context, op c05bOp) (hrpc.Call, error) {
 	var opts []func(hrpc.Call) error
 	if op.SkipBatch && op.Kind != "scan" {
 		opts = append(opts, hrpc.SkipBatch())
@@ -73,6 +79,13 @@ func c05bRunInBubble(c c05bCase) (out Outcome) {
 		return viol("harness", "dial failed: %v", err)
 	}
 	var wg sync.WaitGroup
+	var cancelMu sync.Mutex
+	var cancels []context.CancelFunc
+	defer func() {
+		for _, cancel := range cancels {
+			cancel()
+		}
+	}()
 	want := map[string]c05bOp{}
 	multiWrite := 0
 	for _, ops := range c.Senders {
@@ -88,12 +101,19 @@ func c05bRunInBubble(c c05bCase) (out Outcome) {
 		go func(ops []c05bOp) {
 			defer wg.Done()
 			for _, op := range ops {
-				call, err := c05bBuild(op)
+				ctx, cancel := context.WithCancel(context.Background())
+				cancelMu.Lock()
+				cancels = append(cancels, cancel)
+				cancelMu.Unlock()
+				call, err := c05bBuildCtx(ctx, op)
 				if err != nil {
 					panic(err)
 				}
 				call.SetRegion(env.reg)
 				env.rc.QueueRPC(call)
+				if op.GiveUp {
+					cancel()
+				}
 			}
 		}(ops)
 	}
@@ -149,7 +169,10 @@ func c05bRunInBubble(c c05bCase) (out Outcome) {
 		}
 	}
 	var missing []string
-	for mk := range want {
+	for mk, op := range want {
+		if op.GiveUp && seen[mk] == 0 {
+			continue
+		}
 		if seen[mk] != 1 {
 			missing = append(missing, fmt.Sprintf("%s x%d", mk, seen[mk]))
 		}
@@ -187,6 +210,7 @@ func c05bGen(t *rapid.T) c05bCase {
 			if op.Kind == "put" {
 				op.ValueLen = rapid.SampledFrom([]int{0, 1, 10, 300, 5000, 5000, 70000, 300000}).Draw(t, "vlen")
 			}
+			op.GiveUp = op.Kind != "scan" && !op.SkipBatch && rapid.IntRange(0, 5).Draw(t, "giveup") == 0
 			ops = append(ops, op)
 		}
 		c.Senders = append(c.Senders, ops)
